@@ -1,3 +1,5 @@
+import CffiVerif.Generated.UniqueCacheSteps
+
 /-
 Model of the cache that makes non-aggregate ctype objects canonical (C27):
 `unique_cache`, `get_unique_type` / `get_or_insert_unique_type`,
@@ -274,6 +276,64 @@ def finish (s : State) (a : Addr) : State × Out :=
                 cache := cache' }, .ok .done)
     else (s, .error .Referenced)
   | none => (s, .error .Dead)
+
+/-! ### The statements of the C functions (regenerated from the source on every run)
+
+`Generated/UniqueCacheSteps.lean` lists the statements of `get_or_insert_unique_type`,
+`remove_dead_unique_reference` and `ctypedescr_dealloc` with the conditions around them.
+`runSteps` executes such a list on one cache entry (absent / a dead weak reference / a live
+one); `modelInsert`, `modelRemove` say what `build` and `finish` above do with that entry. -/
+
+inductive Entry | absent | dead | live
+  deriving DecidableEq, Repr
+
+structure StepRun where
+  found : Option Bool
+  resolvedLive : Option Bool
+  deleted : Bool
+  stored : Bool
+  result : Option Bool      -- some true: the existing object is returned; some false: the new one
+  deriving DecidableEq, Repr
+
+open CffiVerif.Generated.UniqueCacheSteps in
+def condHolds (r : StepRun) (hasKey : Bool) : Cond → Bool
+  | .found => r.found == some true
+  | .live => r.resolvedLive == some true
+  | .dead => r.resolvedLive == some false
+  | .hasKey => hasKey
+
+open CffiVerif.Generated.UniqueCacheSteps in
+def runStep (e : Entry) (r : StepRun) (st : Step) : StepRun :=
+  if r.result.isSome || !(st.1.all (condHolds r true)) then r else
+  match st.2 with
+  | .lookup => { r with found := some (e != .absent) }
+  | .resolve => { r with resolvedLive := some (e == .live) }
+  | .delItem => { r with deleted := true }
+  | .returnExisting => { r with result := some true }
+  | .store => { r with stored := true }
+  | .returnNew => { r with result := some false }
+  | _ => r
+
+open CffiVerif.Generated.UniqueCacheSteps in
+def runSteps (l : List Step) (e : Entry) : StepRun :=
+  l.foldl (runStep e) { found := none, resolvedLive := none, deleted := false, stored := false, result := none }
+
+/-- `build` on a keyed shape: a live entry is returned as it is, anything else is overwritten by
+a weak reference to the new object -/
+def modelInsert (e : Entry) : Bool × Bool :=      -- (existing object returned, new weak reference stored)
+  match e with
+  | .live => (true, false)
+  | _ => (false, true)
+
+/-- `finish`: the entry under the key of the dying type is deleted iff it is a dead weak reference
+(`s.cache k' = some none`) -/
+def modelRemove (e : Entry) : Bool := e == .dead
+
+open CffiVerif.Generated.UniqueCacheSteps in
+/-- position of an action in `ctypedescr_dealloc` -/
+def posOf (a : Act) (l : List Step) : Option Nat :=
+  let i := l.findIdx (fun st => st.2 == a)
+  if i < l.length then some i else none
 
 def step (s : State) : Op → State × Out
   | .build sh res => build s sh res
